@@ -229,6 +229,11 @@ impl Group for Dispatch {
             format!("c19.dispatch {}", hex(b"nonexistent a b")),
             format!("c19.dispatch {}", hex(b"  ping   a  'b c' ")),
             format!("c19.dispatch {}", hex(b"'pi'ng x")),
+            // a well-formed command followed by the beginning of a multi-byte character and nothing else: not UTF-8 either
+            "c19.dispatch !70696e67206120e282".to_owned(),
+            "c19.dispatch !70696e6720c3".to_owned(),
+            "c19.dispatch !70696e67202261222020f09f98".to_owned(),
+            "c19.dispatch !70696e67e2".to_owned(),
         ];
         // long requests with multi-byte characters at every alignment: unknown commands and pings of 40-200 bytes
         for shift in 0..5 {
@@ -256,8 +261,15 @@ impl Group for Dispatch {
                     v.push(format!("c19.dispatch {}", hex(m.as_bytes())));
                 }
                 0 => {
-                    let mut b = gen_string(rng, 8).into_bytes();
-                    b.push(0xff);
+                    // not UTF-8: a byte that never occurs, a stray continuation byte, or a character cut off at the end —
+                    // behind garbage or behind a well-formed `ping`
+                    let mut b = if rng.chance(1, 2) { gen_string(rng, 8).into_bytes() } else { format!("ping {}", gen_string(rng, 5).replace(['"', '\'', '\\'], "")).into_bytes() };
+                    match rng.below(4) {
+                        0 => b.push(0xff),
+                        1 => b.push(0x80),
+                        2 => { let tails: [&[u8]; 5] = [&[0xc3], &[0xe2, 0x82], &[0xf0, 0x9f], &[0xf0, 0x9f, 0x98], &[0xe2]]; b.extend_from_slice(*rng.pick(&tails)); }
+                        _ => { b.extend_from_slice(&[0xe2, 0x82]); b.push(b'x'); }
+                    }
                     v.push(format!("c19.dispatch !{}", hex(&b)));
                 }
                 1 => v.push(format!("c19.dispatch {}", hex(format!("x{}", gen_string(rng, 6).replace([' ', '"', '\'', '\\'], "")).as_bytes()))),
